@@ -99,7 +99,10 @@ class Extractor:
         if k == 'VarDecl' and not ctx and self.tu.parent.get(n['id'], {}).get('kind') == 'TranslationUnitDecl':
             self.globals.append(n)
         if k in ('FunctionDecl', 'CXXMethodDecl', 'CXXConstructorDecl', 'CXXDestructorDecl') and not n.get('isImplicit') \
-                and any(c and c.get('kind') == 'CompoundStmt' for c in n.get('inner', [])):
+                and any(c and c.get('kind') == 'CompoundStmt' for c in n.get('inner', [])) \
+                and not (self.tu.parent.get(n['id'], {}).get('definitionData', {}).get('isLambda') or n.get('name') == 'operator()'):
+            # (the call operator of a lambda's closure class is not a function of the program: the function that contains the
+            #  lambda is reported as an extraction break where the lambda is used)
             self.funcs.append(n)
         for c in n.get('inner', []):
             if c:
@@ -525,9 +528,14 @@ class Extractor:
             seen = False
             for c in inner:
                 if seen:
-                    for x in self.subtree(c):
+                    stack = [c]
+                    while stack:
+                        x = stack.pop()
+                        if not x or x.get('kind') == 'LambdaExpr':     # a return inside a lambda leaves the lambda, not this scope
+                            continue
                         if x.get('kind') in ('ReturnStmt', 'BreakStmt', 'ContinueStmt', 'GotoStmt'):
-                            raise ExtractionBreak('early exit from a lock_guard scope at ' + self.loc(c))
+                            raise ExtractionBreak('early exit from a lock scope at ' + self.loc(c))
+                        stack.extend(x.get('inner', []))
                 if c.get('kind') == 'DeclStmt' and any(is_sync(self.node_types(v)) for v in c.get('inner', []) if v):
                     seen = True
             i = tail.rfind('}')
@@ -864,6 +872,9 @@ class Extractor:
         self.fire('R12-lock')
         if 'unique_lock' in qt:
             self.lockers[v['name']] = mtx
+            # R12c: the destructor of a unique_lock releases the mutex if the lock object still owns it (the ghost flag `held` is
+            # "held by this thread", which is what owns_lock() says for the only lock object on that mutex in the function)
+            self.scope_unlocks[-1].append('if ((%s)->held) wv_mutex_unlock(%s);' % (mtx, mtx))
             return 'wv_mutex_lock(%s);' % mtx
         if 'lock_guard' in qt:
             self.scope_unlocks[-1].append('wv_mutex_unlock(%s);' % mtx)
@@ -889,6 +900,18 @@ class Extractor:
                 if var not in self.lockers:
                     raise ExtractionBreak('cv.wait on unknown lock at ' + self.loc(n))
                 return 'wv_cv_wait(%s, %s)' % (cv, self.lockers[var])
+            # R12b predicate overloads.  wait(lock, pred) is `while (!pred()) wait(lock);`: it returns only with the predicate true, and
+            # without letting go of the lock if it is true already.  The rely in the contract of wv_cv_wait is closed under repetition, so
+            # one call stands for any number of rounds and the exit condition is assumed (partial correctness: blocking for ever is the
+            # liveness side, C04).  wait_for / wait_until(lock, time, pred) may also give up with the predicate false; they yield pred().
+            if name in ('wait', 'wait_for', 'wait_until') and len(args) == (2 if name == 'wait' else 3):
+                var = self.strip_casts(args[0]).get('referencedDecl', {}).get('name')
+                pred = self.lambda_predicate(args[-1])
+                if var in self.lockers and pred:
+                    self.fire('R12b-predicate-wait')
+                    if name == 'wait':
+                        return '({ if (!(%s)) { wv_cv_wait(%s, %s); __CPROVER_assume(%s); } })' % (pred, cv, self.lockers[var], pred)
+                    return '({ if (!(%s)) wv_cv_wait(%s, %s); (bool)(%s); })' % (pred, cv, self.lockers[var], pred)
             if name == 'notify_all':
                 return 'wv_cv_notify_all(%s)' % cv
             if name == 'notify_one':
@@ -896,6 +919,31 @@ class Extractor:
         if 'std::thread' in ot and name == 'join':
             return 'wv_thread_join(&(%s))' % self.gen(obj)
         raise ExtractionBreak('unsupported sync call %s on %s at %s' % (name, ot.strip(), self.loc(n)))
+
+    def lambda_predicate(self, a):
+        """the C text of `[this]{ return <expr>; }` (a lambda whose body is one return statement), else None"""
+        stack = [a]
+        lam = None
+        while stack:
+            x = stack.pop()
+            if not x:
+                continue
+            if x.get('kind') == 'LambdaExpr':
+                lam = x
+                break
+            stack.extend(x.get('inner', []))
+        if lam is None:
+            return None
+        body = [c for c in lam.get('inner', []) if c and c.get('kind') == 'CompoundStmt']
+        if not body:
+            return None
+        stmts = [c for c in body[-1].get('inner', []) if c]
+        if len(stmts) != 1 or stmts[0].get('kind') != 'ReturnStmt' or not stmts[0].get('inner'):
+            return None
+        try:
+            return self.gen(stmts[0]['inner'][0])
+        except ExtractionBreak:
+            return None
 
     def g_CXXOperatorCallExpr(self, n):
         # R13: threads[i] = std::thread(f, a, std::ref(b))
